@@ -234,6 +234,7 @@ pub fn adjust(cfg: &mut SwarmCfg, tier: &str, r: &mut Prng) {
             cfg.oracles = sv(&["agreement", "codec"]);
             cfg.faults = sv(&["C-FLIP", "C-TRUNC", "C-LEN-HUGE", "C-LEN-NONMINIMAL", "C-DISCRIMINANT", "C-TAIL", "C-RANDOM", "S-FLIP", "N-RACE"]);
             cfg.knobs.push(("codec-mutations".into(), 6));
+            cfg.knobs.push(("boundary-sizes".into(), 1));
             cfg.knobs.push(("psk".into(), 1));
             cfg.knobs.push(("detached".into(), 5));
             cfg.knobs.push(("ext-sender".into(), 1));
@@ -494,7 +495,7 @@ pub fn extra_action(w: &mut World, kind: &str) -> Option<Action> {
             Some(Action::Special {
                 kind: "forge".into(),
                 a: p as u64,
-                b: if w.cfg.knob("templates").is_some() { w.prng.below(15) } else { w.prng.below(12) },
+                b: if w.cfg.knob("templates").is_some() { w.prng.below(16) } else { w.prng.below(13) },
                 c: w.prng.below(8),
             })
         }
@@ -641,7 +642,7 @@ pub fn adjust_commit(w: &mut World, _p: usize, _g: usize, spec: &mut CommitSpec)
     if w.cfg.knob("templates").is_some() && w.prng.chance(1, 5) {
         // (two by-value PSK proposals for the same external id get different nonces, hence different
         // PreSharedKeyIDs: that is valid, so it is not a template; the forger covers the identical-id case)
-        let t = *w.prng.pick(&[1u8, 2, 4, 5, 8, 9, 10, 11, 12, 12]);
+        let t = *w.prng.pick(&[1u8, 2, 4, 5, 8, 9, 10, 11, 12, 12, 13]);
         let q = if t == 8 { w.parties.len() - 1 } else { w.prng.usize_below(w.parties.len()) };
         spec.templates.push((t, q));
     }
